@@ -24,6 +24,7 @@ def init_symbolic():
         sys.path.insert(0, src)
     from . import desugar, explore, shims
 
+    desugar.REBIND = True
     desugar.install()
     import betterproto
 
